@@ -1125,12 +1125,12 @@ func (p *proxyLogListener) SubscribeOnLogMessagesWithBacklog() (func(), chan []L
 // GetLogLevel updates the property value
 func (p *proxyLogListener) GetLogLevel() (ret LogLevel, err error) {
 	name := value.String("logLevel")
-	value, err := p.Property(name)
+	propValue, err := p.Property(name)
 	if err != nil {
 		return ret, fmt.Errorf("get property: %s", err)
 	}
 	var buf bytes.Buffer
-	err = value.Write(&buf)
+	err = propValue.Write(&buf)
 	if err != nil {
 		return ret, fmt.Errorf("read response: %s", err)
 	}
